@@ -1,6 +1,7 @@
 package scen
 
 import (
+	"reflect"
 	"context"
 	"fmt"
 	"math/rand"
@@ -49,6 +50,7 @@ type Join struct {
 	DstInit []world.Spec `json:"dst_init"`
 	Acts    []JAct       `json:"acts"`
 	Cycles  int          `json:"cycles"` // additional create/close cycles over the long-lived base controllers
+	Bufsiz  int          `json:"bufsiz,omitempty"` // EventBufsiz of the run (0 = 100)
 	CloseDst bool        `json:"close_dst"` // finally close the destination base while a join is alive: the join must go down with it (C11 for joins)
 	Sim     SimCfg       `json:"sim"`
 }
@@ -146,6 +148,37 @@ func srcKindOf(kind string) string {
 	return kind
 }
 
+// view: what the i-th base controller currently holds, as server-side specs.
+// Without any dropped hand-off that is the server's content (the stronger,
+// end-to-end statement).  Once something was dropped (small-buffer runs) the
+// base caches may lag behind their servers until a relist; a join is defined
+// over what its bases hold, so the base's own cache is read (reflectively: the
+// typed controllers share no untyped accessor) and mapped back to the specs
+// the server handed out.
+func (e *joinEnv) view(srv *world.Server, i int) []world.Spec {
+	if detsim.TotalDrops() == 0 {
+		return srv.Objects()
+	}
+	hist := map[string]world.Spec{}
+	for _, en := range srv.History() {
+		hist[en.Obj.Key()+"@"+en.Obj.RV] = en.Obj
+	}
+	res := reflect.ValueOf(e.bases[i]).MethodByName("Cache").Call(nil)[0].MethodByName("List").Call(nil)
+	if !res[1].IsNil() {
+		detsim.Fail("api-error", "Cache().List() of base controller %d: %v", i, res[1].Interface())
+	}
+	var out []world.Spec
+	for k := 0; k < res[0].Len(); k++ {
+		o := world.SpecOf(res[0].Index(k).Interface().(metav1.Object))
+		full, ok := hist[o.Key()+"@"+o.RV]
+		if !ok {
+			detsim.Fail("infra:scenario", "base controller %d holds %s, which its server never sent", i, o.ID())
+		}
+		out = append(out, full)
+	}
+	return out
+}
+
 func selectBy(f filter.Filter, kind string, objs []world.Spec) []world.Spec {
 	var out []world.Spec
 	for _, o := range objs {
@@ -184,7 +217,9 @@ func (e *joinEnv) setup() {
 		e.bases = append(e.bases, c)
 		return c
 	}
-	srcObjs := func() []world.Spec { return e.src.Objects() }
+	srcObjs := func() []world.Spec { return e.view(e.src, 0) }
+	dstObjs := func() []world.Spec { return e.view(e.dst, len(e.bases)-1) }
+	midObjs := func() []world.Spec { return e.view(e.mid, 1) }
 	switch sc.Kind {
 	case "service":
 		s, err := service.BuildController(e.ctx, e.log, e.src)
@@ -210,7 +245,7 @@ func (e *joinEnv) setup() {
 			for _, o := range srcObjs() {
 				objs = append(objs, world.Build("service", o).(*corev1.Service))
 			}
-			return selectBy(fn(objs...), "pod", e.dst.Objects())
+			return selectBy(fn(objs...), "pod", dstObjs())
 		}
 	case "rc":
 		s, err := replicationcontroller.BuildController(e.ctx, e.log, e.src)
@@ -236,7 +271,7 @@ func (e *joinEnv) setup() {
 			for _, o := range srcObjs() {
 				objs = append(objs, world.Build("replicationcontroller", o).(*corev1.ReplicationController))
 			}
-			return selectBy(fn(objs...), "pod", e.dst.Objects())
+			return selectBy(fn(objs...), "pod", dstObjs())
 		}
 	case "rs":
 		s, err := replicaset.BuildController(e.ctx, e.log, e.src)
@@ -262,7 +297,7 @@ func (e *joinEnv) setup() {
 			for _, o := range srcObjs() {
 				objs = append(objs, world.Build("replicaset", o).(*appsv1.ReplicaSet))
 			}
-			return selectBy(fn(objs...), "pod", e.dst.Objects())
+			return selectBy(fn(objs...), "pod", dstObjs())
 		}
 	case "deployment":
 		s, err := deployment.BuildController(e.ctx, e.log, e.src)
@@ -288,7 +323,7 @@ func (e *joinEnv) setup() {
 			for _, o := range srcObjs() {
 				objs = append(objs, world.Build("deployment", o).(*appsv1.Deployment))
 			}
-			return selectBy(fn(objs...), "pod", e.dst.Objects())
+			return selectBy(fn(objs...), "pod", dstObjs())
 		}
 	case "daemonset":
 		s, err := daemonset.BuildController(e.ctx, e.log, e.src)
@@ -314,7 +349,7 @@ func (e *joinEnv) setup() {
 			for _, o := range srcObjs() {
 				objs = append(objs, world.Build("daemonset", o).(*appsv1.DaemonSet))
 			}
-			return selectBy(fn(objs...), "pod", e.dst.Objects())
+			return selectBy(fn(objs...), "pod", dstObjs())
 		}
 	case "statefulset":
 		s, err := statefulset.BuildController(e.ctx, e.log, e.src)
@@ -340,7 +375,7 @@ func (e *joinEnv) setup() {
 			for _, o := range srcObjs() {
 				objs = append(objs, world.Build("statefulset", o).(*appsv1.StatefulSet))
 			}
-			return selectBy(fn(objs...), "pod", e.dst.Objects())
+			return selectBy(fn(objs...), "pod", dstObjs())
 		}
 	case "job":
 		s, err := job.BuildController(e.ctx, e.log, e.src)
@@ -366,7 +401,7 @@ func (e *joinEnv) setup() {
 			for _, o := range srcObjs() {
 				objs = append(objs, world.Build("job", o).(*batchv1.Job))
 			}
-			return selectBy(fn(objs...), "pod", e.dst.Objects())
+			return selectBy(fn(objs...), "pod", dstObjs())
 		}
 	case "ingress-service":
 		s, err := ingress.BuildController(e.ctx, e.log, e.src)
@@ -394,7 +429,7 @@ func (e *joinEnv) setup() {
 			for _, o := range srcObjs() {
 				objs = append(objs, world.Build("ingress", o).(*netv1beta1.Ingress))
 			}
-			return selectBy(fn(objs...), "service", e.dst.Objects())
+			return selectBy(fn(objs...), "service", dstObjs())
 		}
 	case "ingress-pods":
 		s, err := ingress.BuildController(e.ctx, e.log, e.src)
@@ -417,10 +452,10 @@ func (e *joinEnv) setup() {
 				ings = append(ings, world.Build("ingress", o).(*netv1beta1.Ingress))
 			}
 			var svcs []*corev1.Service
-			for _, o := range selectBy(ingress.ServicesFilter(ings...), "service", e.mid.Objects()) {
+			for _, o := range selectBy(ingress.ServicesFilter(ings...), "service", midObjs()) {
 				svcs = append(svcs, world.Build("service", o).(*corev1.Service))
 			}
-			return selectBy(service.PodsFilter(svcs...), "pod", e.dst.Objects())
+			return selectBy(service.PodsFilter(svcs...), "pod", dstObjs())
 		}
 	default:
 		detsim.Fail("infra:scenario", "unknown join kind %q", sc.Kind)
@@ -583,7 +618,11 @@ func specsOfObjs(objs []metav1.Object) []world.Spec {
 
 func runJoin(sci interface{}) {
 	sc := sci.(*Join)
-	setBufsiz(100)
+	if sc.Bufsiz > 0 {
+		setBufsiz(sc.Bufsiz)
+	} else {
+		setBufsiz(100)
+	}
 	e := &joinEnv{sc: sc, log: world.NewLog(false)}
 	var cancel context.CancelFunc
 	e.ctx, cancel = context.WithCancel(logutil.NewContext(context.Background(), e.log))
@@ -644,11 +683,42 @@ func addDecisiveBurst(rng *rand.Rand, sc *Join) {
 	sc.Acts = append(sc.Acts[:at:at], append(burst, sc.Acts[at:]...)...)
 }
 
-func genC09(g GenCtx) interface{} {
-	return genJoin(g, joinKinds[g.Idx%len(joinKinds)]) // every join is exercised in turn
+// genJoinOverrun: the join's source monitor falls behind by more than its
+// (small) event buffer while one source flips between two selectors; the
+// destination does not change.  Events are lost on the way to the monitor,
+// which is allowed - but every event it does handle recomputes the selection
+// from the whole source cache, so at quiescence the join must still show the
+// selection of what the source controller holds.
+func genJoinOverrun(rng *rand.Rand, sc *Join) {
+	sc.Bufsiz = pickInt(rng, 2, 3, 4, 6, 8)
+	sc.SrcInit = []world.Spec{{NS: "n1", Name: "s1", Sel: map[string]string{"app": "a"}}}
+	sc.DstInit = []world.Spec{
+		{NS: "n1", Name: "p1", Labels: map[string]string{"app": "a"}},
+		{NS: "n1", Name: "p2", Labels: map[string]string{"app": "b"}},
+		{NS: "n1", Name: "p3", Labels: map[string]string{"app": "c"}}}
+	sc.Acts = nil
+	for round := 1 + rng.Intn(3); round > 0; round-- {
+		for k := sc.Bufsiz + 1 + rng.Intn(3*sc.Bufsiz); k > 0; k-- {
+			a := JAct{Op: "src-apply", NS: "n1", Name: pick(rng, "s1", "s1", "s1", "s2"), Sel: map[string]string{"app": pick(rng, "a", "b", "c")}}
+			if rng.Intn(8) == 0 {
+				a = JAct{Op: "src-delete", NS: "n1", Name: "s2"}
+			}
+			sc.Acts = append(sc.Acts, a)
+		}
+		sc.Acts = append(sc.Acts, JAct{Op: "check"})
+	}
+	sc.Sim = SimCfg{PermuteMaps: true, MaxSteps: 200000, EstSteps: 6000}
+	sc.Sim.Strategy = detsim.Strategy{Kind: "starve", StarveName: pick(rng, "NewMonitor>m.run", "NewMonitor>m.run", "newSubscription>s.run"), StarveK: pickInt(rng, 20, 60, 200)}
+	if rng.Intn(4) == 0 {
+		sc.Sim.Strategy = detsim.Strategy{Kind: "pct", PCTDepth: 1 + rng.Intn(3)}
+	}
 }
 
-func genJoin(g GenCtx, kind string) *Join {
+func genC09(g GenCtx) interface{} {
+	return genJoin(g, joinKinds[g.Idx%len(joinKinds)], g.Idx%8 == 5) // every join is exercised in turn
+}
+
+func genJoin(g GenCtx, kind string, overrun bool) *Join {
 	rng := g.Rng
 	sc := &Join{Prop: g.Prop}
 	sc.Kind = kind
@@ -749,6 +819,10 @@ func genJoin(g GenCtx, kind string) *Join {
 		for i, n := 0, pickInt(rng, 40, 130, 300); i < n; i++ {
 			sc.DstInit = append(sc.DstInit, world.Spec{NS: pick(rng, "n1", "n2"), Name: "bulk" + itoa(i), Labels: randLabels(rng)})
 		}
+	}
+	if !isIng && overrun {
+		genJoinOverrun(rng, sc)
+		return sc
 	}
 	sc.CloseDst = rng.Intn(3) == 0
 	if rng.Intn(3) == 0 {
